@@ -171,6 +171,8 @@ def step(w, op, prop, strict_others=False):
                 w.taint_sharers(tid)
         else:
             m.cols.append(col)
+            if m.scalars.pop(col, None) is not None or col in ("energy", "label", "meta"):
+                w.count("scalar_promoted_to_column")
             m.data[col] = list(values)
             w.kinds[tid][col] = ckind
             if isinstance(t._data[m.index], FaultyArray):
